@@ -277,4 +277,25 @@ where
     | rs, [] => rs.isEmpty
     | rs, a :: w => RE.matchSetLive (RE.pdSet rs a) w
 
+/-- witness search on the product of the automaton and the expression's derivative sets (breadth first, each
+    product state once): finds a shortest disagreeing sequence however long it has to be.  A pair is
+    `(automaton state or none once it has no edge, derivative set, word that leads there)`; a disagreement is a
+    different accept verdict, or the automaton dying while the expression can still continue (or the reverse).
+    Search code, not part of any proof. -/
+def distinguishProduct (d : Dfa) (sigma : List Nat) (r : RE) (fuel : Nat := 6000) : Option (List Nat × Bool × Bool) :=
+  let rec go : Nat → List (Option Nat × List RE × List Nat) → List (Option Nat × List RE) → Option (List Nat × Bool × Bool)
+    | 0, _, _ => none
+    | _ + 1, [], _ => none
+    | fuel + 1, (q, rs, w) :: todo, seen =>
+      let acc := match q with | some q => d.validEnd q | none => false
+      let racc := RE.nullableSet rs
+      if acc != racc then some (w.reverse, acc, racc)
+      else if q.isNone && rs.isEmpty then go fuel todo seen
+      else if seen.any (fun (p, ps) => p == q && RE.sameSet ps rs) then go fuel todo seen
+      else
+        let next := sigma.map (fun a =>
+          ((match q with | some q => d.matchType q a | none => none), RE.pdSet rs a, a :: w))
+        go fuel (todo ++ next) ((q, rs) :: seen)
+  go fuel [(some 0, [r], [])] []
+
 end PM
